@@ -11,7 +11,8 @@ RULE = ("import graphs as real files in a scratch directory: every graph over 3 
         "after its imports. Oracle (graph predicate, computed in Python): if a cycle is reachable from the root the run ends "
         "with an error and prints nothing at all; otherwise it ends normally and the output is the depth-first expansion in "
         "source order. Also compared with the Lean model. Non-trivial: the graph has a diamond, a repeated import or a cycle."
-        ' The root file is on disk (cycles through the root are real); the 512 three-file graphs also started with a relative root path and over six name sets (upper-case, case-colliding, Bangla, same-normal-form, accented).')
+        ' The root file is on disk (cycles through the root are real); the 512 three-file graphs also started with a relative root path and over six name sets (upper-case, case-colliding, Bangla, same-normal-form, accented).'
+        ' Same-alias graphs (one alias for every import of a file).')
 ASSUMPTIONS = ["module paths are relative paths, clean or spelled with `./`, `/./`, `//` (no `..`); the harness uses an absolute root directory"]
 default_compare = lambda m, i: C.compare_run(m, i)
 PATHS = ["main.pakhi", "b.pakhi", "sub/c.pakhi", "sub/deep/d.pakhi", "e.pakhi", "sub/f.pakhi", "g.pakhi", "sub/deep/h.pakhi", "i.pakhi", "sub/j.pakhi"]
@@ -52,7 +53,7 @@ def spell(path, k):
     return path
 
 
-def graph_case(name, n, edges, descending, root_ph="@ROOT@", extra=None, spelling=None, paths=None, rel=False):
+def graph_case(name, n, edges, descending, root_ph="@ROOT@", extra=None, spelling=None, paths=None, rel=False, same_alias=False):
     PATHS = paths or globals()["PATHS"]
     adj = {u: sorted([v for (a, v) in edges if a == u], reverse=descending) for u in range(n)}
     lines = ["RESET"]
@@ -61,7 +62,7 @@ def graph_case(name, n, edges, descending, root_ph="@ROOT@", extra=None, spellin
         body = f'দেখাও "f{u}-শুরু";\n'
         for k, v in enumerate(adj[u]):
             pth = PATHS[v] if spelling is None else spell(PATHS[v], spelling(u, v))
-            body += f'মডিউল ম{G.bn_digits(str(k))} = "{pth}";\n'
+            body += f'মডিউল ম{"" if same_alias else G.bn_digits(str(k))} = "{pth}";\n'
         body += f'দেখাও "f{u}-শেষ";\n'
         srcs[u] = body
         # the root file is on disk too (an import of it by name loads it: cycles through the root are real cycles)
@@ -130,6 +131,13 @@ def cases(rng, tier, stats):
             continue
         edges = [e for k, e in enumerate(e3) if mask >> k & 1]
         out.append(graph_case("graphs-3-relative-start", 3, edges, bool((mask >> 4) & 1), rel=True)); n += 1
+    # the same 512 graphs with ONE alias for every import of a file (two different modules under the same name: both are loaded,
+    # both count for the cycle check)
+    for mask in range(1 << 9):
+        if tier != "thorough" and mask % 3:
+            continue
+        edges = [e for k, e in enumerate(e3) if mask >> k & 1]
+        out.append(graph_case("graphs-3-same-alias", 3, edges, bool((mask >> 5) & 1), same_alias=True)); n += 1
     # the same 512 graphs with the import paths written in other spellings (`./x`, `a/./x`, `a//x`): the file a path
     # text denotes decides, cycles through differently spelled edges are cycles
     for mask in range(1 << 9):
